@@ -41,7 +41,10 @@ class C09(Prop):
                     fl[0]["at"] = r.choice(ks)
                     scn["fault_in_rollback"] = True
                     # the calls after the fault have to get done within a generous multiple of what the whole fault-free history needed
-                    scn["op_budgets"] = {str(j): 50 * w.seq + 5000 for j in range(1, len(scn["ops"])) if scn["ops"][j]["op"] == "integrate"}
+                    # (not when a callback of the history assigns dt: a scheduled step of 1e-3 that the failed call leaves in force is the
+                    # user's own step, and a later call is entitled to crawl with it)
+                    if not any("plan" in (o.get("callbacks") or []) for o in scn["ops"]):
+                        scn["op_budgets"] = {str(j): 50 * w.seq + 5000 for j in range(1, len(scn["ops"])) if scn["ops"][j]["op"] == "integrate"}
             except BaseException:
                 pass
         return [scn]
